@@ -147,8 +147,17 @@ func Main() (retcode int) { //nolint:funlen // we do have quite a lot of flags a
 		return repl.Interactive(options)
 	}
 	options.All = true
-	s := eval.NewState()
-	s.NoReg = *noRegister
+	// every state gets the limits and modes given on the command line, like with -c and in interactive mode.
+	newState := func() *eval.State {
+		ns := eval.NewState()
+		ns.NoReg = options.NoReg
+		if options.MaxDepth > 0 {
+			ns.MaxDepth = options.MaxDepth
+		}
+		ns.MaxValueLen = options.MaxValueLen
+		return ns
+	}
+	s := newState()
 	if options.ShebangMode {
 		script := flag.Arg(0)
 		// remaining := flag.Args()[1:] // actually let's also pass the name of the script as arg[0]
@@ -188,7 +197,7 @@ func Main() (retcode int) { //nolint:funlen // we do have quite a lot of flags a
 			return ret // already logged errors.
 		}
 		if !*sharedState {
-			ns := eval.NewState()
+			ns := newState()
 			ns.Out = s.Out
 			ns.LogOut = s.LogOut
 			s = ns
